@@ -450,6 +450,22 @@ func c13R4(c *Ctx, r *Report, infos map[*ssa.Function]*lockInfo) {
 				problems = append(problems, fmt.Sprintf("%s: serve loop entered with the %s held (isStarted and Shutdown would block)", c.pos(sc.Pos()), lkName(li.at[sc.(ssa.Instruction)])))
 			}
 		}
+		for _, st := range sts {
+			if b, ok := constBool(st.Val); !ok || !b {
+				continue
+			}
+			passed, blk := mustPass(f, st.Block(), instrIndex(st), func(x ssa.Instruction) bool {
+				ci, ok := x.(ssa.CallInstruction)
+				if !ok {
+					return false
+				}
+				n := calleeNameSSA(ci.Common())
+				return n == "(Server).serveTCP" || n == "(Server).serveUDP"
+			})
+			if !passed {
+				problems = append(problems, fmt.Sprintf("%s: after started=true the function can return (%s) without entering a serve loop: a failed start leaves the server marked started (Shutdown then waits for a drain that never comes, a retry is refused)", c.pos(st.Pos()), c.pos(blk.Instrs[len(blk.Instrs)-1].Pos())))
+			}
+		}
 		r.check(len(problems) == 0, "C13.R4.start-stop", name+":started-unlock-serve", c.pos(f.Pos()), fmt.Sprintf("%d serve calls", len(serves)), "%s", strings.Join(problems, "; "))
 	}
 	f := c.ssaFunc("Server.ShutdownContext")
@@ -500,6 +516,35 @@ func c13R4(c *Ctx, r *Report, infos map[*ssa.Function]*lockInfo) {
 		}
 	}
 	r.check(len(problems) == 0, "C13.R4.start-stop", "Server.ShutdownContext:order", c.pos(f.Pos()), "test, started=false, unblock", "%s", strings.Join(problems, "; "))
+	problems = nil
+	// each configured endpoint is unblocked regardless of the other one
+	nUnblock := 0
+	for _, e := range effects {
+		call, ok := e.(*ssa.Call)
+		if !ok {
+			continue
+		}
+		cn := calleeNameSSA(&call.Call)
+		var own, other string
+		switch {
+		case strings.HasSuffix(cn, ".SetReadDeadline") && anyIn(sliceOf(call.Call.Value), readsField("Server", "PacketConn")):
+			own, other = "PacketConn", "Listener"
+		case strings.HasSuffix(cn, ".Close") && anyIn(sliceOf(call.Call.Value), readsField("Server", "Listener")):
+			own, other = "Listener", "PacketConn"
+		default:
+			continue
+		}
+		nUnblock++
+		for _, fc := range factsAt(f, e.Block()) {
+			if anyIn(sliceOf(fc.Atom), readsField("Server", other)) {
+				problems = append(problems, fmt.Sprintf("%s: unblocking the %s depends on a test of srv.%s: a server that has both set (reused after a run on the other transport) keeps its reader blocked and Shutdown waits for ever", c.pos(e.Pos()), own, other))
+			}
+		}
+	}
+	if nUnblock < 2 {
+		problems = append(problems, fmt.Sprintf("%d unblocking calls found, want PacketConn.SetReadDeadline and Listener.Close", nUnblock))
+	}
+	r.check(len(problems) == 0, "C13.R4.start-stop", "Server.ShutdownContext:independent-unblock", c.pos(f.Pos()), "each endpoint on its own condition", "%s", strings.Join(problems, "; "))
 	problems = nil
 	// the not-started exit returns an error
 	for _, rp := range returnPoints(f, 0) {
@@ -693,6 +738,35 @@ func c13R5(c *Ctx, r *Report) {
 			}
 		})
 		r.check(len(problems) == 0, "C13.R5.drain", name+":loop", c.pos(f.Pos()), "for srv.isStarted() …; return nil when stopped", "%s", strings.Join(problems, "; "))
+	}
+	// the per-connection query loop of serveTCPConn: every read and every dispatch only while started
+	if f := c.ssaFunc("Server.serveTCPConn"); f == nil {
+		r.cerr("C13.R5.drain", "Server.serveTCPConn", "function not found")
+	} else {
+		r.fn("Server.serveTCPConn")
+		var problems []string
+		n := 0
+		for _, ci := range callsIn(f, "(Server).serveDNS", "(Server).readTCP") {
+			n++
+			if miss := guardsMissing(f, ci.(ssa.Instruction).Block(), []Guard{{Name: "isStarted()", Op: "call", A: callsFunc("(Server).isStarted"), Holds: true}}); len(miss) > 0 {
+				problems = append(problems, fmt.Sprintf("%s: %s is reachable in the per-connection loop without the isStarted() test having passed on this iteration: a connection accepted just before Shutdown keeps reading (with no deadline to unblock it) and starts handlers after Shutdown returned", c.pos(ci.Pos()), calleeNameSSA(ci.Common())))
+			}
+		}
+		// reads through a user-supplied Reader: the invoke of ReadTCP
+		allInstrs(f, func(in ssa.Instruction) {
+			call, ok := in.(*ssa.Call)
+			if !ok || !call.Call.IsInvoke() || call.Call.Method.Name() != "ReadTCP" {
+				return
+			}
+			n++
+			if miss := guardsMissing(f, call.Block(), []Guard{{Name: "isStarted()", Op: "call", A: callsFunc("(Server).isStarted"), Holds: true}}); len(miss) > 0 {
+				problems = append(problems, fmt.Sprintf("%s: the next query is read without the isStarted() test having passed on this iteration: a connection accepted just before Shutdown blocks in a read that nothing unblocks, and its handler starts after Shutdown returned", c.pos(call.Pos())))
+			}
+		})
+		if n < 2 {
+			problems = append(problems, fmt.Sprintf("%d read/dispatch calls found in serveTCPConn, want at least 2", n))
+		}
+		r.check(len(problems) == 0, "C13.R5.drain", "Server.serveTCPConn:loop", c.pos(f.Pos()), "read and dispatch only while started", "%s", strings.Join(problems, "; "))
 	}
 	// no other close of the drain channel in the package
 	n := 0
